@@ -10,6 +10,8 @@
  *   file $E3_LOG (O_APPEND), so a temporary file is attributable to the run
  *   that made it although echsx keeps them all in /tmp.
  * - with $E3_ALARM_NOARM set a non-zero alarm() is only logged, not armed.
+ * - with $E3_SPAWNWAIT set a successful posix_spawn of anything but the mailer returns only after
+ *   the child has terminated (waitid WNOWAIT: it stays a zombie for the caller to reap).
  * Nothing else is changed. */
 #define _GNU_SOURCE
 #include <dlfcn.h>
@@ -21,6 +23,8 @@
 #include <unistd.h>
 #include <fcntl.h>
 #include <errno.h>
+#include <signal.h>
+#include <sys/wait.h>
 
 static void
 shim_log(const char *fmt, ...)
@@ -94,6 +98,19 @@ posix_spawn(pid_t *pid, const char *path, const posix_spawn_file_actions_t *fa,
 	}
 	rc = real(pid, path, fa, at, argv, envp);
 	shim_log("spawn rc=%d pid=%d path=%s\n", rc, rc ? 0 : (int)*pid, path);
+	if (rc == 0 && pid != NULL && getenv("E3_SPAWNWAIT") != NULL) {
+		/* place the job's end BEFORE the return of posix_spawn: wait until the child has terminated, leaving it
+		 * reapable (WNOWAIT), so that whatever the caller does after the spawn happens after the job's exit */
+		siginfo_t si;
+		int w, e = errno;
+
+		do {
+			memset(&si, 0, sizeof(si));
+			w = waitid(P_PID, *pid, &si, WEXITED | WNOWAIT);
+		} while (w < 0 && errno == EINTR);
+		shim_log("spawn-waited rc=%d pid=%d code=%d status=%d\n", w, (int)*pid, w ? 0 : si.si_code, w ? 0 : si.si_status);
+		errno = e;
+	}
 	return rc;
 }
 
